@@ -57,11 +57,14 @@ THEOREMS = [
     "C17_entrypoints",
     "C17_history_inside",
     "C17_history_stateless",
+    "C17_s3_key_under_prefix",
+    "C17_s3_list_prefix_under_prefix",
     "C17_fuel_sufficient",
     "C17_legacy_resolver_refuted",
 ]
 REQ = ["DS.Model.Path", "DS.Gen.GenPath"]
-GEN_FILES = ["GenPath.v"]
+REQ_S3 = ["DS.Model.Str", "DS.Gen.GenS3"]
+GEN_FILES = ["GenPath.v", "GenS3.v"]
 
 MANIFEST_ENTRY = {
     "level_text": "Coq theorems, for EVERY symlink tree (loops included), base spelling, working directory, path string and fuel: "
@@ -770,6 +773,34 @@ def oracle_s3(ctx) -> None:
     ctx.sample({"s3_case": {"prefix": S3_PREFIXES[0], "entry": "read_file", "path": strings[4]}})
 
 
+def corr_s3_keys(ctx) -> None:
+    """Real _get_s3_key and the Prefix= a real list_files sends  vs  Gen/GenS3.v (regenerated) on the path grammar."""
+    from harness.lib import mems3
+    from harness.lib.coqio import coq_string
+    strings = ["", "/", "..", "../t2/data/x", "//etc/passwd", "data/", "../", "data//x/"] + pathfs.grammar(2 if ctx.tier == "quick" else 3, S3_COMPONENTS)
+    strings = [s_ for s_ in dict.fromkeys(strings) if all(32 <= ord(ch) < 127 and ch != '"' for ch in s_)]
+    exprs, impl, meta = [], [], []
+    for prefix in S3_PREFIXES:
+        client = mems3.MemS3(lambda: 0)
+        b = mems3.make_s3_backend(client, prefix=prefix)
+        for p in strings:
+            st, key = bounded.get_guard().run("_get_s3_key", {"entry": "s3:exists", "path": p, "s3_prefix": prefix}, lambda: b._get_s3_key(p))
+            client.requests.clear()
+            st2, _ = bounded.get_guard().run("list_files", {"entry": "s3:list_files", "path": p, "s3_prefix": prefix}, lambda: b.list_files(p))
+            lp = next((k for op, k in client.requests if op == "list_objects_v2"), None)
+            impl.append((key if st == "ok" else ("other", st), lp if st2 == "ok" else ("other", st2)))
+            pre_c, p_c = coq_string(b.prefix), coq_string(p)
+            exprs.append(f"(string_of_list_ascii (gen_get_s3_key (lit {pre_c}) (lit {p_c})), string_of_list_ascii (gen_list_prefix (lit {pre_c}) (lit {p_c})))")
+            meta.append((prefix, p))
+    got = coqbuild.coq_eval(REQ_S3, exprs, chunk=400)
+    bad = []
+    for (prefix, p), im, g in zip(meta, impl, got):
+        ctx.count(1, ("s3-keys", prefix, p))
+        if tuple(g) != tuple(im):
+            bad.append({"s3_prefix": prefix, "path": p, "impl": repr(im), "model": repr(g)})
+    ctx.correspondence("s3-keys", len(meta), bad)
+
+
 STRACE_DRIVER = r"""
 import os, sys
 ws, verif = sys.argv[1], sys.argv[2]
@@ -1178,6 +1209,7 @@ def run(ctx) -> None:
         staged('corr_standard', lambda: corr_paths(ctx, corr_strings))
         staged('corr_acyclic', lambda: corr_paths(ctx, pathfs.grammar(2 if quick else 3, pathfs.ACYCLIC_COMPONENTS), arrangement="acyclic"))
         staged('corr_history', lambda: corr_history(ctx))
+        staged('corr_s3_keys', lambda: corr_s3_keys(ctx))
         staged('corr_entries', lambda: corr_entries(ctx, obs_ws, obs, 3))
         staged('corr_random', lambda: corr_random_trees(ctx, 60 if quick else 400, 25))
     except RuntimeError as e:
